@@ -21,13 +21,15 @@ pub enum Sym {
     Eof,
     ErrOther,
     ErrWouldBlock,
+    /// a hard error whose kind looks like an end-of-file condition
+    ErrUnexpectedEof,
     /// large-count family only: deliver up to 40000 / 64008 bytes
     D40000,
     D64008,
 }
 /// Alphabet of the large-count family (counts beyond one HCOBS chunk).
 pub const LARGE_SYMS: [Sym; 8] = [Sym::DAll, Sym::D40000, Sym::D64008, Sym::D1, Sym::Intr, Sym::Eof, Sym::ErrOther, Sym::ErrWouldBlock];
-pub const SYMS: [Sym; 7] = [Sym::DAll, Sym::D1, Sym::D2, Sym::Intr, Sym::Eof, Sym::ErrOther, Sym::ErrWouldBlock];
+pub const SYMS: [Sym; 8] = [Sym::DAll, Sym::D1, Sym::D2, Sym::Intr, Sym::Eof, Sym::ErrOther, Sym::ErrWouldBlock, Sym::ErrUnexpectedEof];
 
 impl Sym {
     fn name(self) -> &'static str {
@@ -39,6 +41,7 @@ impl Sym {
             Sym::Eof => "EOF",
             Sym::ErrOther => "ErrOther",
             Sym::ErrWouldBlock => "ErrWouldBlock",
+            Sym::ErrUnexpectedEof => "ErrUnexpectedEof",
             Sym::D40000 => "deliver40000",
             Sym::D64008 => "deliver64008",
         }
@@ -102,6 +105,10 @@ impl Read for ScriptReader<'_> {
                 self.answers.push(Err(ErrorKind::WouldBlock));
                 return Err(std::io::Error::new(ErrorKind::WouldBlock, "would block"));
             }
+            Sym::ErrUnexpectedEof => {
+                self.answers.push(Err(ErrorKind::UnexpectedEof));
+                return Err(std::io::Error::new(ErrorKind::UnexpectedEof, "source went away"));
+            }
         };
         let n = want.min(dst.len()).min(self.source.len() - self.pos);
         dst[..n].copy_from_slice(&self.source[self.pos..self.pos + n]);
@@ -150,6 +157,10 @@ pub fn spec(script: &[Sym], count: usize, attempts: usize, source_len: usize) ->
             }
             Sym::ErrWouldBlock => {
                 err = Some(ErrorKind::WouldBlock);
+                break;
+            }
+            Sym::ErrUnexpectedEof => {
+                err = Some(ErrorKind::UnexpectedEof);
                 break;
             }
         }
@@ -586,7 +597,7 @@ fn run_script(rep: &mut Report, script: &[Sym]) {
                     rep.transitions += script.len().min(attempts) as u64 + 1;
                     match run_case(&case) {
                         Ok(()) => {
-                            let faulty = script.iter().any(|s| matches!(s, Sym::Intr | Sym::ErrOther | Sym::ErrWouldBlock | Sym::D1 | Sym::D2));
+                            let faulty = script.iter().any(|s| matches!(s, Sym::Intr | Sym::ErrOther | Sym::ErrWouldBlock | Sym::ErrUnexpectedEof | Sym::D1 | Sym::D2));
                             if faulty && count > 0 {
                                 rep.nontrivial += 1;
                             }
@@ -682,7 +693,7 @@ fn run(ctx: &Ctx) -> Report {
     explore_large(ctx, &mut rep, ctx.tier.pick(3, 4), &mut unit);
     rep.max_depth = max_len as u64;
     rep.note(format!(
-        "C17: all reader scripts over {{deliverAll, deliver1, deliver2, EINTR, EOF, ErrOther, ErrWouldBlock}} up to length {} (EOF forever afterwards) x counts {:?} x attempt limits {:?} x 5 arena states (ByteArena::read_n) / 2 arena states (Encoder/Decoder read_n, encode_read, decode_read)",
+        "C17: all reader scripts over {{deliverAll, deliver1, deliver2, EINTR, EOF, ErrOther, ErrWouldBlock, ErrUnexpectedEof}} up to length {} (EOF forever afterwards) x counts {:?} x attempt limits {:?} x 5 arena states (ByteArena::read_n) / 2 arena states (Encoder/Decoder read_n, encode_read, decode_read)",
         max_len, COUNTS, ["1", "2", "3", "5", "MAX"]
     ));
     rep
